@@ -440,7 +440,8 @@ Definition rfc_close_code_ok (code : N) : bool :=
   || ((3000 <=? code) && (code <=? 4999)).
 
 Inductive outcome :=
-| OCut                                        (* the stream ended (anywhere) without a Close frame *)
+| OCut (in_header : bool)                     (* the stream ended without a Close frame; in_header:
+                                                 inside a frame header *)
 | OViolation                                  (* fail the connection, Close 1002 *)
 | OTooBig                                     (* message larger than the receiver accepts, Close 1009 *)
 | OClosed (code : option N) (reason : bytes). (* the peer's Close frame; echoed *)
@@ -454,60 +455,61 @@ Inductive event :=
 Definition rfc_cap (limit : Z) : N :=
   if (0 <? limit)%Z then Z.to_N limit else two63 - 1.
 
+(* the framing rules the property lists; is_open: a fragmented message is in progress *)
+Definition rfc_violation (server is_open : bool) (h : fhdr) : bool :=
+  negb (f_rsv h =? 0)                                          (* 5.2: RSV1-3 MUST be 0 (no extension) *)
+  || negb (Bool.eqb (f_masked h) server)                       (* 5.1: client masks, server does not *)
+  || ((3 <=? f_op h) && (f_op h <=? 7)) || (11 <=? f_op h)     (* 5.2: reserved opcodes *)
+  || ((8 <=? f_op h) &&                                        (* 5.5: control frames are not fragmented *)
+      (negb (f_fin h) || (125 <? f_len h) || f_ext h))         (*      and carry at most 125 bytes (which the
+                                                                       minimal-encoding rule of 5.2 puts in the
+                                                                       7-bit field: an extended form is oversized
+                                                                       or non-minimal) *)
+  || ((f_op h =? 0) && negb is_open)                           (* 5.4: continuation without a started message *)
+  || (((f_op h =? 1) || (f_op h =? 2)) && is_open).            (* 5.4: new data frame inside a fragmented message *)
+
+(* 5.5.1: Close body = optional 2-byte status + UTF-8 reason *)
+Definition rfc_close (p : bytes) : outcome :=
+  match p with
+  | c1 :: c2 :: reason =>
+    let code := c1 * 256 + c2 in
+    if rfc_close_code_ok code && utf8_spec reason then OClosed (Some code) reason else OViolation
+  | _ => OClosed None []          (* no status (a 1-byte body is treated alike, see C14 notes) *)
+  end.
+
 (* open = Some (type, fragments so far (newest first), total length): a fragmented message is in
    progress (5.4) *)
 Fixpoint rfc_recv (fuel : nat) (server : bool) (cap : N) (open : option (N * list bytes * N))
          (bs : bytes) (evs : list event) : list event * outcome :=
   match fuel with
-  | O => (rev' evs, OCut)
+  | O => (rev' evs, OCut false)
   | S fuel' =>
     match rfc_header bs with
-    | HEnd | HCut => (rev' evs, OCut)
-    | HBadLen => (rev' evs, OViolation)                             (* 5.2 *)
+    | HEnd => (rev' evs, OCut false)
+    | HCut => (rev' evs, OCut true)
+    | HBadLen => (rev' evs, OViolation)                             (* 5.2: MSB of a 64-bit length MUST be 0 *)
     | HOk h rest =>
-      if negb (f_rsv h =? 0) then (rev' evs, OViolation)            (* 5.2: RSV1-3 MUST be 0 *)
-      else if negb (Bool.eqb (f_masked h) server) then (rev' evs, OViolation)   (* 5.1 *)
+      if rfc_violation server (match open with Some _ => true | None => false end) h
+      then (rev' evs, OViolation)
       else if (8 <=? f_op h) then
         (* control frames, 5.5 *)
-        if (10 <? f_op h) then (rev' evs, OViolation)               (* 0xB-0xF reserved *)
-        (* not fragmented; at most 125 bytes, which the minimal-encoding rule of 5.2 puts in the
-           7-bit field: an extended length form on a control frame is oversized or non-minimal *)
-        else if negb (f_fin h) || (125 <? f_len h) || f_ext h then (rev' evs, OViolation)
-        else match rfc_payload h rest with
-             | None => (rev' evs, OCut)
-             | Some (p, rest') =>
-               if f_op h =? 9 then rfc_recv fuel' server cap open rest' (EvPong p :: evs)   (* 5.5.2/5.5.3 *)
-               else if f_op h =? 10 then rfc_recv fuel' server cap open rest' evs
-               else (* Close, 5.5.1 *)
-                 match p with
-                 | c1 :: c2 :: reason =>
-                   let code := c1 * 256 + c2 in
-                   if rfc_close_code_ok code && utf8_spec reason
-                   then (rev' evs, OClosed (Some code) reason)
-                   else (rev' evs, OViolation)
-                 | _ => (rev' evs, OClosed None [])     (* no status (a 1-byte body is treated alike) *)
-                 end
-             end
+        match rfc_payload h rest with
+        | None => (rev' evs, OCut false)
+        | Some (p, rest') =>
+          if f_op h =? 9 then rfc_recv fuel' server cap open rest' (EvPong p :: evs)   (* 5.5.2 / 5.5.3 *)
+          else if f_op h =? 10 then rfc_recv fuel' server cap open rest' evs
+          else (rev' evs, rfc_close p)
+        end
       else
         (* data frames, 5.4 / 5.6 *)
-        if (2 <? f_op h) then (rev' evs, OViolation)                (* 0x3-0x7 reserved *)
-        else
-          let seq := match open, (f_op h =? 0) with
-                     | Some (t, fr, n), true => Some (t, fr, n)     (* continuation of the open message *)
-                     | None, false => Some (f_op h, [], 0)          (* first frame of a new message *)
-                     | _, _ => None
-                     end in
-          match seq with
-          | None => (rev' evs, OViolation)
-          | Some (t, fr, n) =>
-            if cap <? n + f_len h then (rev' evs, OTooBig)
-            else match rfc_payload h rest with
-                 | None => (rev' evs, OCut)
-                 | Some (p, rest') =>
-                   if f_fin h then rfc_recv fuel' server cap None rest' (EvMsg t (concat (rev' (p :: fr))) :: evs)
-                   else rfc_recv fuel' server cap (Some (t, p :: fr, n + f_len h)) rest' evs
-                 end
-          end
+        let '(t, fr, n) := match open with Some o => o | None => (f_op h, [], 0) end in
+        if cap <? n + f_len h then (rev' evs, OTooBig)
+        else match rfc_payload h rest with
+             | None => (rev' evs, OCut false)
+             | Some (p, rest') =>
+               if f_fin h then rfc_recv fuel' server cap None rest' (EvMsg t (concat (rev' (p :: fr))) :: evs)
+               else rfc_recv fuel' server cap (Some (t, p :: fr, n + f_len h)) rest' evs
+             end
     end
   end.
 
@@ -517,7 +519,7 @@ Definition rfc_receive (server : bool) (limit : Z) (bs : bytes) : list event * o
 (* the Close frame the receiver sends for an outcome: status code, None = empty body *)
 Definition rfc_close_sent (o : outcome) : option (option N) :=
   match o with
-  | OCut => None
+  | OCut _ => None
   | OViolation => Some (Some 1002)
   | OTooBig => Some (Some 1009)
   | OClosed code _ => Some code
@@ -530,7 +532,7 @@ Close Scope N_scope.
    obs:   ((reads...) (writes...) (spec-events...) spec-outcome)    or (2) on a panic
      read:   (0 type xpayload) | (1 kind ...)       write: (opcode xpayload)
      event:  (0 op xpayload) message | (1 xpayload) pong
-     outcome:(0) cut | (1) violation | (2) too big | (3 code|-1 xreason) closed                *)
+     outcome:(0 in_header) cut | (1) violation | (2) too big | (3 code|-1 xreason) closed                *)
 Definition sx_err (e : rerr) : sx :=
   match e with
   | EUeof => SL [SZ 1; SZ 1]
@@ -550,7 +552,7 @@ Definition sx_event (e : event) : sx :=
 
 Definition sx_outcome (o : outcome) : sx :=
   match o with
-  | OCut => SL [SZ 0]
+  | OCut h => SL [SZ 0; sbool h]
   | OViolation => SL [SZ 1]
   | OTooBig => SL [SZ 2]
   | OClosed None r => SL [SZ 3; SZ (-1); SB r]
